@@ -10,7 +10,9 @@ A *regressor case* is a JSON-able dict:
    "moe": {...},                                            only for MOERegressor
    "samples": [i, ...],                                     first training from a subset of the samples
    "history": [{"samples": [i, ...] | null,                 further trainings of the SAME model object, each followed
-                "fit_transformers": bool, "q": [...]}],     by all the observations at its own query points
+                "fit_transformers": bool, "q": [...]}       by all the observations at its own query points
+               | {"set": {"hard": bool}, "q": [...]}],      or an assignment of a public attribute of the trained object
+                                                            (MOERegressor.hard, RBFRegressor.der_function: true/false)
    "sur": [{"in": [names], "out": [names]}],                SurrogateDiscipline(model, input_names=, output_names=)
    "sur_named": bool}                                       SurrogateDiscipline("<algo>", data=..., **settings) too
 A *transformer spec* is [class name, {options}] or ["Pipeline", [spec, ...]].
@@ -134,7 +136,10 @@ def _opts(case_opts: dict[str, Any]) -> dict[str, Any]:
     for k, v in case_opts.items():
         if k == "function" and v in CALLABLES:
             kw["function"] = CALLABLES[v][0]
-            kw["der_function"] = CALLABLES[v][1]
+            if case_opts.get("der_function", True) is not False:
+                kw["der_function"] = CALLABLES[v][1]
+        elif k == "der_function":
+            continue  # (false: the derivative of a callable kernel is not given to the constructor)
         elif k in ("epsilon", "smooth", "penalty_level", "l2_penalty_ratio"):
             kw[k] = None if v is None else fl(v)
         else:
@@ -211,6 +216,18 @@ def relearn(model, phase) -> None:
         samples=[int(i) for i in samples] if samples is not None else (),
         fit_transformers=bool(phase.get("fit_transformers", True)),
     )
+
+
+def set_switches(model, case, values: dict[str, Any]) -> None:
+    """Assign documented public attributes of a trained model object (no training): `MOERegressor.hard`,
+    `RBFRegressor.der_function` (the derivative of the case's callable kernel, or None)."""
+    for k, v in values.items():
+        if k == "hard":
+            model.hard = bool(v)
+        elif k == "der_function":
+            model.der_function = CALLABLES[case["opts"]["function"]][1] if v else None
+        else:
+            raise ValueError(f"unknown public switch {k}")
 
 
 # --------------------------------------------------------------------------- layout helpers
